@@ -2,6 +2,9 @@ import PdfModel.Lemmas.ContentInst
 import PdfModel.Lemmas.ContentTable
 import PdfModel.Lemmas.ContentF32
 import PdfModel.Lemmas.ContentInline
+import PdfModel.Lemmas.ContentBytesCompose
+import PdfModel.Lemmas.ContentBytesInst
+import PdfModel.Lemmas.ContentBytesParts
 
 /-!
 # C08 — content-stream operators round-trip and mean what the operator table says
@@ -21,12 +24,26 @@ reals; that this instance computes what Rust's `f32` computes (`==`, `-`, `as f3
 correspondence stream `c08.real` compares, and the oracle `c08.laws` checks the laws on Rust's `f32` directly.
 `intLaws`, `zLaws` are further instances (`zLaws`: two zeros that are `==`).
 
+**Lexical composition (L2).**  `Model/ContentBytes.lean` is the byte level around the token level: what
+`serialize_ops` writes byte for byte (`serializeBytes`: `struct Real`, `serialize_name`, `PdfString::serialize`,
+`Primitive::serialize` — the shared writer model of C04 —, one space after every operand, a line feed after every
+operator) and the loop of `OpBuilder::parse` on bytes (`parseBytes`: the shared `parseWithLexer` until it fails, then
+`next` as operator, `Content.add`).  `parse_any_spelling` (every conformant spelling of a token sequence — any
+white-space, comments, omitted separators, any spelling of each operand — reads as the token sequence),
+`parse_serialize_bytes` (`parse_bytes (serialize_bytes ops) ≈ ops`) and `parse_contents_parts` (a `/Contents`
+array) compose the token-level theorems with the operand round trip of C04 (`serialize_spells`,
+`parseCtx_spells`) and the lexer's token-boundary lemmas.  Additional hypotheses, all about third-party code or
+about what the shared parser model does not carry: `FmtLaws` (`Display for f32` / `f32::from_str` agree with the
+real-number interface; checked on Rust's `f32` by the oracle `c08.laws`) and `EofFacts` (which errors are
+`PdfError::EOF`; proved for the driver's oracle, `lexOracle_facts`).
+
 `cfg.primDot` says whether `Primitive::Number` is written with a decimal point always (D9 of the C03/C04
 package repaired in primitive.rs); the check detects it on the tree under test and passes it to the model.
 -/
 
 namespace Content
 open ContentSpec
+open PdfSyntax (Gap)
 
 section
 variable {R : Type} (ro : RealOps R)
@@ -221,47 +238,117 @@ theorem parse_compositional (allow : Bool) (c : PCfg R) (ts us : List (Tok R)) (
 end
 
 -- ---------------------------------------------------------------------------------------------------
--- byte level of the inline-image construct: where the image data ends (open finding)
+-- lexical composition (L2): bytes written by `serialize_ops`, read by the loop of `OpBuilder::parse`
+
+section
+open ContentBytes ContentSyntax
+variable {R : Type} (ro : RealOps R)
+
+/-- **Any conformant spelling of a content stream reads as its tokens** (the reader half of the lexical
+    composition, at the strength of C03): whatever white-space, comments and omitted separators lie between the
+    tokens and whichever spelling each operand has (`SpellsToks`), the byte-level loop of `OpBuilder::parse`
+    (`parse_with_lexer` until it fails, then `lexer.next()` as operator; shared lexer / parser models of C03/C04)
+    returns what the token-level reader returns on the token sequence — in strict and in tolerant mode, errors
+    included.  `PrimRT`: operands are values of the Rust types nested within `MAX_DEPTH`; `EofFacts`: the two facts
+    about `PdfError::is_eof` that the parser model does not carry. -/
+theorem parse_any_spelling (env : PdfLex.Env R) (hd : env.decrypt = none) (o : Oracle) (ho : EofFacts o) (allow : Bool)
+    (toks : List (Tok R)) (data : List UInt8) (hsp : SpellsToks env.parseReal toks data)
+    (hp : ∀ p ∈ primsOf toks, PrimRT p) (hsz : data.length ≤ 2147483647) :
+    parseBytes ro env o allow data = parseOps ro allow toks := by
+  have hlen := spellsToks_length hsp
+  have hloop := bytesLoop_spells ro env hd o ho allow toks data hsp hp (buf := data.toArray) (by simpa using hsz) 0
+    ⟨initState ro, []⟩ (data.toArray.size + 1) (PdfLex.suffix_zero data) (by simp; omega)
+  unfold parseBytes parseOps
+  simp only [hloop]
+  cases parseLoop ro allow ⟨initState ro, []⟩ toks <;> rfl
+
+/-- **Lexical composition, round trip on bytes (L2).**  For every sequence of operations the serializer accepts
+    (`OpV`: finite reals, `Primitive` operands that are values of the Rust types nested within `MAX_DEPTH`, no inline
+    image; names any strings, strings any bytes): `serialize_ops` succeeds, and the loop of `OpBuilder::parse` on the
+    bytes written — the `Real` formatting, names through `serialize_name` (`#xx`), strings (literal with escapes or
+    hexadecimal), arrays and dictionaries through `Primitive::serialize`, one space after every operand, a line feed
+    after every operator — returns the original sequence with numeric equality on reals, in both modes.
+    Composition of `parse_serialize_ops` (token level) with the operand round trip of C04 (`serialize_spells`,
+    `parseCtx_spells`) and the lexer's token-boundary lemmas.  Hypotheses on third-party code: `RealLaws`
+    (as before) and `FmtLaws` (`Display for f32` / `f32::from_str` agree with the real-number interface). -/
+theorem parse_serialize_bytes (laws : RealLaws ro) (env : PdfLex.Env R) (hd : env.decrypt = none)
+    (fmt : R → List UInt8) (fl : FmtLaws ro fmt env.parseReal) (o : Oracle) (ho : EofFacts o) (allow : Bool)
+    (ops : List (Op R)) (hv : ∀ op ∈ ops, OpV ro op) :
+    ∃ bytes, serializeBytes ro fmt ops = .ok bytes ∧
+      (bytes.length ≤ 2147483647 →
+        ∃ ops', parseBytes ro env o allow bytes = .ok ops' ∧ opsEquiv ro ops' ops = true) := by
+  obtain ⟨toks, bytes, h1, h2, h3, h4⟩ :=
+    serBytes_spells ro fmt env.parseReal fl ops.length ops ⟨none, none⟩ (Nat.le_refl _) hv
+  refine ⟨bytes, h2, fun hsz => ?_⟩
+  obtain ⟨toks', ops', h5, h6, h7⟩ := parse_serialize_ops ro laws ⟨true⟩ allow ops (fun o ho => (hv o ho).1)
+    (fun o ho => opV_accepted ro (hv o ho))
+  have : toks' = toks := by
+    unfold serializeOps at h5
+    rw [h1] at h5
+    cases h5; rfl
+  subst this
+  refine ⟨ops', ?_, h7⟩
+  rw [parse_any_spelling ro env hd o ho allow toks' bytes (by simpa using h3 [] Gap.nil) h4 hsz]
+  exact h6
+
+/-- **A `/Contents` array.**  When every part is written by `serialize_ops`, `Content::operations` — the data of
+    the parts joined with a line feed after each (the separator added by a `fix:` commit of this package), read by
+    the byte-level loop — returns the concatenation of the parts' operations, with numeric equality on reals.  The
+    line feed is what keeps the last token of a part and the first token of the next apart (`spellsToks_join`). -/
+theorem parse_contents_parts (laws : RealLaws ro) (env : PdfLex.Env R) (hd : env.decrypt = none)
+    (fmt : R → List UInt8) (fl : FmtLaws ro fmt env.parseReal) (o : Oracle) (ho : EofFacts o) (allow : Bool)
+    (parts : List (List (Op R))) (hv : ∀ p ∈ parts, ∀ op ∈ p, OpV ro op) :
+    ∃ bs, serializeParts ro fmt parts = .ok bs ∧
+      ((joinParts bs).length ≤ 2147483647 →
+        ∃ ops', parseBytes ro env o allow (joinParts bs) = .ok ops' ∧ opsEquiv ro ops' parts.flatten = true) := by
+  obtain ⟨toks, bs, st', new, h1, h2, h3, h4, h5, h6⟩ :=
+    parts_spell ro fmt env.parseReal laws fl allow parts hv (initState ro)
+  refine ⟨bs, h1, fun hsz => ⟨new, ?_, h6⟩⟩
+  rw [parse_any_spelling ro env hd o ho allow toks (joinParts bs) (by simpa using h2 [] Gap.nil) h3 hsz]
+  unfold parseOps
+  rw [h4]
+  simp [h5, initState]
+
+end
+
+-- ---------------------------------------------------------------------------------------------------
+-- byte level of the inline-image construct: where the image data ends
 
 open ContentInline in
 /-- Full statement for the end of inline image data: after `ID` and one white-space byte, image data without an
-    `E I` pair, followed by *any* white-space byte, `EI` and then white-space or the end of the stream, is cut
-    out exactly, and reading goes on after `EI`. -/
+    `E I` pair, followed by *any* white-space byte, `EI` and then a token boundary (white-space, a delimiter or the
+    end of the stream), is cut out exactly, and reading goes on after `EI`. -/
 def C08_inline_full : Prop :=
   ∀ (w0 w : UInt8) (data tail : List UInt8), isWs w0 = true → isWs w = true →
-    noEI (w0 :: data) = true → (tail = [] ∨ ∃ t ts, tail = t :: ts ∧ isWs t = true) →
+    noEI (w0 :: data) = true → endsToken tail = true →
     inlineData (w0 :: data ++ w :: 69 :: 73 :: tail) = some (data, tail)
 
 open ContentInline in
-/-- What holds of `inline_image`: the statement with the white-space before `EI` restricted to LF
-    (decidable side condition `w = 10`); any first byte after `ID`, any `tail`. -/
-theorem inline_terminator_partial (w0 : UInt8) (data tail : List UInt8)
-    (h : noEI (w0 :: data) = true) :
-    inlineData (w0 :: data ++ 10 :: 69 :: 73 :: tail) = some (data, tail) := by
-  have hf := findLfEI_append (w0 :: data) tail h
+/-- **The end of inline image data, full strength** (after the `fix:` commit that replaced the search for the
+    bytes LF `E` `I`; the former counter-example `ID A EI Q` is the example below).  This closes the finding
+    `inline-image:EI-not-after-LF`. -/
+theorem inline_terminator_full : C08_inline_full := by
+  intro w0 w data tail _ hw h ht
+  have hf := findEI_append (w0 :: data) tail w hw ht h
   unfold inlineData
   simp only [List.cons_append] at hf ⊢
   rw [hf]
-  have hlen : (w0 :: data).length ≠ 0 := by simp
-  simp only [hlen, if_false, List.length_cons]
-  have h1 : List.take (data.length + 1) (w0 :: (data ++ 10 :: 69 :: 73 :: tail)) = w0 :: data := by
-    simp [List.take_append_of_le_length]
-  have h2 : List.drop (data.length + 1 + 3) (w0 :: (data ++ 10 :: 69 :: 73 :: tail)) = tail := by
-    have : data.length + 1 + 3 = (w0 :: (data ++ [10, 69, 73])).length := by simp
+  simp only [List.length_cons]
+  have h1 : List.take (data.length + 1) (w0 :: (data ++ w :: 69 :: 73 :: tail)) = w0 :: data := by
+    simp
+  have h2 : List.drop (data.length + 1 + 3) (w0 :: (data ++ w :: 69 :: 73 :: tail)) = tail := by
+    have : data.length + 1 + 3 = (w0 :: (data ++ [w, 69, 73])).length := by simp
     rw [this]
-    have e : w0 :: (data ++ 10 :: 69 :: 73 :: tail) = (w0 :: (data ++ [10, 69, 73])) ++ tail := by simp
+    have e : w0 :: (data ++ w :: 69 :: 73 :: tail) = (w0 :: (data ++ [w, 69, 73])) ++ tail := by simp
     rw [e, List.drop_left]
   rw [h1, h2]
   rfl
 
 open ContentInline in
-/-- The code violates the full statement: `ID A EI Q` (space before `EI`) is not terminated at its `EI`
-    (known finding `inline-image:EI-not-after-LF`; the check replays this input on the implementation). -/
-theorem inline_terminator_counterexample : ¬ C08_inline_full := by
-  intro h
-  have := h 32 32 [65] [32, 81, 10] (by decide) (by decide) (by decide)
-    (Or.inr ⟨32, [81, 10], rfl, by decide⟩)
-  revert this
+/-- `ID A EI Q⏎` (space before `EI`): the data is `A`, reading goes on at ` Q⏎`; and `EI` inside a longer word
+    (`xEIy`) is not taken for the end -/
+example : inlineData [32, 65, 32, 69, 73, 32, 81, 10] = some ([65], [32, 81, 10]) ∧
+    inlineData [32, 65, 32, 69, 73, 121, 10, 69, 73] = some ([65, 32, 69, 73, 121], []) := by
   decide
 
 -- ---------------------------------------------------------------------------------------------------
@@ -323,5 +410,60 @@ example : parseOps intOps true [.prim (.int 1), .kw "'", .prim (.int 7), .prim (
 
 example : parseOps intOps false [.prim (.int 1), .kw "'", .prim (.int 7), .kw "w"] = .err := by
   rfl
+
+
+-- non-vacuity of the lexical composition
+
+section
+open ContentBytes ContentSyntax
+
+/-- operations whose names hold a space, `#`, a non-ASCII character and a solidus, whose strings hold a parenthesis, a
+    CR, a backslash and a byte ≥ 128, with a real ≥ 2^31, a dictionary operand and every kind of array -/
+def demoBytesOps : List (Op Int) := [
+  .moveTo ⟨0, 0⟩, .curveTo ⟨0, 0⟩ ⟨1, 1⟩ ⟨2, 2⟩, .close, .stroke,
+  .textFont "F 1#é" 12, .textNewline, .textDraw [40, 13, 92, 200], .lineWidth 3000000000,
+  .beginMarkedContent "Span" (some (.dict ["MCID", "K y"] [.int 3, .arr [.real 2, .name "a/b"]])),
+  .fillColor (.other [.real 1, .name "P 0"]), .dash [1, 2] 0, .textDraw [40, 13, 92],
+  .textDrawAdjusted [.text [65], .spacing (-7)]]
+
+theorem demoBytesOps_valid : ∀ op ∈ demoBytesOps, OpV intOps op := by
+  intro op hop
+  simp only [demoBytesOps, List.mem_cons, List.mem_nil_iff, or_false] at hop
+  rcases hop with rfl | rfl | rfl | rfl | rfl | rfl | rfl | rfl | rfl | rfl | rfl | rfl | rfl <;>
+    refine ⟨by decide, ?_⟩ <;>
+    simp [ColorV, PrimV, PrimVL, finiteR, intOps, toLex, toLexL, toLexE, PdfSyntax.vdepth, PdfSyntax.vdepthL,
+      PdfSyntax.vdepthE, PdfLex.maxDepth] <;> decide
+
+/-- the bytes the model writes for them: `#xx` in names, `\r` and hexadecimal strings, `3000000000.`, a
+    dictionary as `Primitive::serialize` writes it -/
+example : (match serializeBytes intOps PdfLex.fmtInt demoBytesOps with
+    | .ok b => b == ("0 0 m\n1 1 2 2 v\ns\n/F#201#23#c3#a9 12 Tf\n<280d5cc8> '\n3000000000. w\n" ++
+        "/Span <<\n/MCID 3\n/K#20y [2. /a#2fb]\n>>\n BDC\n1. /P#200 scn\n[1 2] 0 d\n(\\(\\r\\\\) Tj\n[(A) -7] TJ\n").toUTF8.data.toList
+    | _ => false) = true := by
+  decide +kernel
+
+/-- and the byte-level loop reads them back (both modes, the driver's oracle) -/
+example (allow : Bool) : ∃ bytes ops', serializeBytes intOps PdfLex.fmtInt demoBytesOps = .ok bytes ∧
+    parseBytes intOps intEnv (lexOracle fun _ _ => .err) allow bytes = .ok ops' ∧
+    opsEquiv intOps ops' demoBytesOps = true := by
+  obtain ⟨bytes, h1, h2⟩ := parse_serialize_bytes intOps intLaws intEnv rfl PdfLex.fmtInt intFmtLaws
+    (lexOracle fun _ _ => .err) (lexOracle_facts _) allow demoBytesOps demoBytesOps_valid
+  have hlen : bytes.length ≤ 2147483647 := by
+    have e : (match serializeBytes intOps PdfLex.fmtInt demoBytesOps with
+      | .ok b => decide (b.length ≤ 2147483647) | _ => false) = true := by decide +kernel
+    rw [h1] at e
+    simpa using e
+  obtain ⟨ops', h3, h4⟩ := h2 hlen
+  exact ⟨bytes, ops', h1, h3, h4⟩
+
+/-- a layout the writer never produces — no separators where none are needed, comments, a `#xx` name, an octal
+    escape — is a spelling too, and reads as its tokens: `[1 2]0 d%c⏎/A#20B<41>Tj(\101)'` -/
+example : (match parseBytes intOps intEnv (lexOracle fun _ _ => .err) false
+      "[1 2]0 d%c\n/A#20B gs<41>Tj(\\101)'".toUTF8.data.toList with
+    | .ok ops => opsEquiv intOps ops [.dash [1, 2] 0, .graphicsState "A B", .textDraw [65], .textNewline, .textDraw [65]]
+    | _ => false) = true := by
+  decide +kernel
+
+end
 
 end Content
